@@ -5,12 +5,14 @@
      Blank        ' ' | '\t' | '\r'
      LineComment  "//" : swallows everything up to (not including) the next NL
      BlockComment "/* ... */" (newlines inside it are not seen by the insertion rule)
-   Lexer state: pending_semicolon (last token added can_end_statement) and nesting_depth
-   (incremented by the kinds in depth_open, saturating decrement by depth_close: `(` `[` only,
-   NOT `{`).  On NL a TSemicolon is added iff
+   Lexer state: pending_semicolon (last token added can_end_statement), nesting_depth
+   (incremented by the kinds in depth_open, saturating decrement by depth_close: `(` `[`) and
+   brace_stack: at a depth_save kind (`{`) the current depth is pushed and the depth restarts
+   at 0, at a depth_restore kind (`}`) it is popped back (nothing happens when the stack is
+   empty).  On NL a TSemicolon is added iff
         pending_semicolon && nesting_depth == 0 && !next_token_is_else()
-   where next_token_is_else looks at the following CHARACTERS, skipping blanks and newlines
-   only (not comments).  "++"/"--" are one token only when pending_semicolon.  At the end of
+   where next_token_is_else looks at the following CHARACTERS, skipping blanks, newlines,
+   `//` comments up to the end of the line and `/* */` comments.  "++"/"--" are one token only when pending_semicolon.  At the end of
    input a pending semicolon is added, then TEof.
    The alphabet, can_end_statement, depth_open/depth_close are regenerated from the Rust
    source on every run (Extracted/AsiTokens.v). *)
@@ -20,18 +22,34 @@ Import ListNotations.
 
 Inductive piece := Tok (k : tkind) | NL | Blank | LineComment | BlockComment.
 
-Record lstate := { pending : bool; depth : nat }.
-Definition st0 : lstate := {| pending := false; depth := 0 |}.
+Record lstate := { pending : bool; depth : nat; stack : list nat }.
+Definition st0 : lstate := {| pending := false; depth := 0; stack := [] |}.
 
 Definition is_else (k : tkind) : bool := match k with TElse => true | _ => false end.
 
-(* cursor.rs next_token_is_else, on the pieces that follow the newline *)
-Fixpoint is_else_next (l : list piece) : bool :=
+(* cursor.rs next_token_is_else, on the pieces that follow the newline; c = inside a `//`
+   comment (everything up to the next NL is comment text) *)
+Fixpoint is_else_next_c (c : bool) (l : list piece) : bool :=
   match l with
-  | Blank :: r => is_else_next r
-  | NL :: r => is_else_next r
-  | Tok k :: _ => is_else k
-  | _ => false
+  | [] => false
+  | NL :: r => is_else_next_c false r
+  | p :: r =>
+      if c then is_else_next_c true r
+      else match p with
+           | Tok k => is_else k
+           | LineComment => is_else_next_c true r
+           | _ => is_else_next_c false r
+           end
+  end.
+Definition is_else_next (l : list piece) : bool := is_else_next_c false l.
+
+(* whether the scanner is inside a `//` comment after the pieces l, starting in mode c *)
+Fixpoint mode_after (c : bool) (l : list piece) : bool :=
+  match l with
+  | [] => c
+  | NL :: r => mode_after false r
+  | LineComment :: r => mode_after true r
+  | _ :: r => mode_after c r
   end.
 
 (* tokens added for the text of one token piece *)
@@ -48,14 +66,22 @@ Definition after_tok (st : lstate) (k : tkind) : lstate :=
               | TMinusMinus => if pending st then TMinusMinus else TMinus
               | _ => k
               end in
-  {| pending := can_end_statement last;
-     depth := if depth_open k then S (depth st) else if depth_close k then Nat.pred (depth st) else depth st |}.
+  let p := can_end_statement last in
+  if depth_save k then {| pending := p; depth := 0; stack := depth st :: stack st |}
+  else if depth_restore k then
+    match stack st with
+    | d :: r => {| pending := p; depth := d; stack := r |}
+    | [] => {| pending := p; depth := depth st; stack := [] |}
+    end
+  else {| pending := p;
+          depth := if depth_open k then S (depth st) else if depth_close k then Nat.pred (depth st) else depth st;
+          stack := stack st |}.
 
 Definition nl_inserts (st : lstate) (rest : list piece) : bool :=
   pending st && Nat.eqb (depth st) 0 && negb (is_else_next rest).
 
 Definition after_nl (st : lstate) (rest : list piece) : lstate :=
-  if nl_inserts st rest then {| pending := false; depth := depth st |} else st.
+  if nl_inserts st rest then {| pending := false; depth := depth st; stack := stack st |} else st.
 
 (* Lexer::scan: c = inside a line comment *)
 Fixpoint scan (st : lstate) (c : bool) (l : list piece) : list tkind :=
